@@ -149,13 +149,20 @@ Definition schedW : list step :=
 
 Definition LMonly (clog : N -> entry) : node -> list entry -> Prop := fun _ ents => LM clog ents.
 
+Lemma all_in {A} (P : A -> Prop) (l : list A) : Forall P l -> forall e, In e l -> P e.
+Proof. intro H. apply Forall_forall. exact H. Qed.
+
+(* computations are made on the goal only, so that Qed replays them with the virtual machine *)
+Ltac conc := vm_compute; repeat (first [reflexivity | discriminate | intro]).
+Ltac all_conc :=
+  match goal with |- forall e, In e ?l -> @?P e => apply (all_in P l) end;
+  vm_compute; repeat (apply Forall_cons; [conc|]); apply Forall_nil.
 Ltac ready_ok_concrete n :=
   intros _; unfold ready_ok; split; [exists n; vm_compute; reflexivity|];
-  split; [intros ? ? ? H; vm_compute in H; discriminate|];
-  split; [split; [intros h H; vm_compute in H; try discriminate; injection H as <-; vm_compute; discriminate
-                 | intros e He; vm_compute in He; repeat (destruct He as [<-|He]; [vm_compute; reflexivity|]); destruct He]|];
-  split; [intros e He Hn; vm_compute in He;
-          repeat (destruct He as [<-|He]; [try (vm_compute in Hn; discriminate); vm_compute; reflexivity|]); destruct He|];
+  split; [intros ? ? ?; vm_compute; let H := fresh in (intro H; discriminate)|];
+  split; [split; [let h := fresh in let H := fresh in let E := fresh in
+                  (intros h; vm_compute; intro H; first [discriminate | injection H as E; subst h; conc]) | all_conc]|];
+  split; [all_conc|];
   split; [vm_compute; reflexivity|].
 
 Lemma LM_clogW ents : (forall e, In e ents -> e = clogW (e_idx e)) -> LM clogW ents.
@@ -164,17 +171,13 @@ Proof. intros H e He _. apply H, He. Qed.
 Lemma schedW_ok : sched_ok clogW (fun _ => False) (LMonly clogW) schedW start_node.
 Proof.
   unfold schedW. cbn [sched_ok step_ok].
-  split; [ready_ok_concrete 3%nat; apply LM_clogW; intros e He; vm_compute in He;
-          repeat (destruct He as [<-|He]; [reflexivity|]); destruct He|].
-  split; [ready_ok_concrete 1%nat; apply LM_clogW; intros e He; vm_compute in He;
-          repeat (destruct He as [<-|He]; [reflexivity|]); destruct He|].
+  split; [ready_ok_concrete 3%nat; apply LM_clogW; all_conc|].
+  split; [ready_ok_concrete 1%nat; apply LM_clogW; all_conc|].
   split; [exact Logic.I|].
-  split; [ready_ok_concrete 0%nat; apply LM_clogW; intros e He; vm_compute in He; destruct He|].
+  split; [ready_ok_concrete 0%nat; apply LM_clogW; all_conc|].
   split; [exact Logic.I|].
-  split; [ready_ok_concrete 0%nat; apply LM_clogW; intros e He; vm_compute in He;
-          repeat (destruct He as [<-|He]; [reflexivity|]); destruct He|].
-  split; [ready_ok_concrete 3%nat; apply LM_clogW; intros e He; vm_compute in He;
-          repeat (destruct He as [<-|He]; [reflexivity|]); destruct He|].
+  split; [ready_ok_concrete 0%nat; apply LM_clogW; all_conc|].
+  split; [ready_ok_concrete 3%nat; apply LM_clogW; all_conc|].
   split; exact Logic.I.
 Qed.
 
@@ -245,39 +248,31 @@ Definition schedV : list step :=
    SPropose 700 true; SPropose 701 true;
    SReady rdV3 false None;       (* the two proposals are appended locally *)
    SReady rdV4 false None; SApplyTask None;   (* committed, applied as ONE batch, both futures resolved *)
-   SCompact None;
-   SReady rdV5 false (Some 3);   (* a conf change and a command: synchronous path, killed after Save and one more op *)
+   SCompact true None;
+   SReady rdV5 false (Some 3%nat);   (* a conf change and a command: synchronous path, killed after Save and one more op *)
    SRestart;
    SReady rdV6 false None].
 
-Lemma LA_nil ents : LA [] ents.
-Proof.
-  intros e f H. exfalso. induction ents as [|x r IH]; cbn [assigned] in H; [exact H|].
-  destruct (e_kind x); apply IH, H.
-Qed.
+Lemma LM_clogV ents : (forall e, In e ents -> e = clogV (e_idx e)) -> LM clogV ents.
+Proof. intros H e He _. apply H, He. Qed.
+
+Ltac la_conc :=
+  let H := fresh in
+  (intros ? ?; vm_compute; intro H;
+   repeat (destruct H as [H|H]; [injection H as <- <-; reflexivity|]); destruct H).
 
 Lemma schedV_ok : sched_ok clogV (fun _ => False) (TrackFut clogV) schedV start_node.
 Proof.
   unfold schedV. cbn [sched_ok step_ok].
-  split; [ready_ok_concrete 3%nat; split;
-          [apply LM_clogW || (intros e He _; vm_compute in He; repeat (destruct He as [<-|He]; [reflexivity|]); destruct He)
-          | vm_compute; apply LA_nil]|].
-  split; [ready_ok_concrete 1%nat; split;
-          [intros e He _; vm_compute in He; repeat (destruct He as [<-|He]; [reflexivity|]); destruct He
-          | vm_compute; apply LA_nil]|].
+  split; [ready_ok_concrete 3%nat; split; [apply LM_clogV; all_conc | la_conc]|].
+  split; [ready_ok_concrete 1%nat; split; [apply LM_clogV; all_conc | la_conc]|].
   split; [exact Logic.I|]. split; [exact Logic.I|]. split; [exact Logic.I|].
-  split; [ready_ok_concrete 0%nat; split;
-          [intros e He _; vm_compute in He; repeat (destruct He as [<-|He]; [reflexivity|]); destruct He
-          | intros e f H; vm_compute in H; repeat (destruct H as [H|H]; [injection H as <- <-; reflexivity|]); destruct H]|].
-  split; [ready_ok_concrete 2%nat; split;
-          [intros e He _; vm_compute in He; destruct He | vm_compute; apply LA_nil]|].
+  split; [ready_ok_concrete 0%nat; split; [apply LM_clogV; all_conc | la_conc]|].
+  split; [ready_ok_concrete 2%nat; split; [apply LM_clogV; all_conc | la_conc]|].
   split; [exact Logic.I|]. split; [exact Logic.I|].
-  split; [ready_ok_concrete 2%nat; split;
-          [intros e He _; vm_compute in He; repeat (destruct He as [<-|He]; [reflexivity|]); destruct He
-          | vm_compute; apply LA_nil]|].
+  split; [ready_ok_concrete 2%nat; split; [apply LM_clogV; all_conc | la_conc]|].
   split; [exact Logic.I|].
-  split; [ready_ok_concrete 2%nat; split;
-          [intros e He _; vm_compute in He; destruct He | vm_compute; apply LA_nil]|].
+  split; [ready_ok_concrete 2%nat; split; [apply LM_clogV; all_conc | la_conc]|].
   exact Logic.I.
 Qed.
 
@@ -296,7 +291,7 @@ Proof. vm_compute. repeat split; auto. Qed.
 Definition schedPlain : list step :=
   [SReady rdV1 false None; SReady rdV2 false None; SApplyTask None;
    SReady rdV3 false None; SReady rdV4 false None;
-   SApplyTask (Some 1);          (* ApplyBatch done, killed before Storage.MarkApplied *)
+   SApplyTask (Some 1%nat);          (* ApplyBatch done, killed before Storage.MarkApplied *)
    SRestart; SReady (mkReady None [] None [clogV 5; clogV 6] [] false) false None; SApplyTask None].
 
 Lemma plain_reapplies :
